@@ -782,6 +782,13 @@ def run_check(prop, mod, tier, seed):
         shutil.rmtree(scratch, ignore_errors=True)
 
 
+def replay_shared_list(line):
+    """wlgen cases run twice in a check: on a fresh list, and ('+' label) on a list that other recipes used first"""
+    if line.startswith("wlgen "):
+        r, _ = run_impl(["r+ " + line])
+        print("on a list other recipes used before -> %s" % (r.get("r+") or "")[:600])
+
+
 def replay(path):
     d = json.load(open(path))
     prop = d["property"]
